@@ -301,39 +301,49 @@ Proof.
     try discriminate.
   - (* CONNACK *) destruct Hinv as (-> & Hrest).
     destruct (rt_connack v code sp pr t fl bytes (conj eq_refl Hrest) Epb Hlen) as (-> & -> & Hparse).
-    eapply read_packet_packed; eauto; try (cbv; reflexivity). left. split; [reflexivity|exact Hparse].
+    eapply (read_packet_packed v CONNACK 0 bytes _ h); [reflexivity|reflexivity|exact Hlen| |exact Eh].
+    left. split; [reflexivity|exact Hparse].
   - (* PUBLISH *) assert (ver = v) by (destruct Hinv; assumption). subst ver.
     destruct (rt_publish v dup qos retain topic pid payload pr t fl bytes Hinv Epb Hlen) as (-> & Hfl & Hpf & Hparse).
-    eapply read_packet_packed; eauto; try (cbv; reflexivity). left. split.
+    eapply (read_packet_packed v PUBLISH fl bytes _ h); [reflexivity|exact Hfl|exact Hlen| |exact Eh].
+    left. split.
     + unfold precheck. cbn [fh_type fh_flags]. cbn [N.eqb Pos.eqb PUBLISH CONNECT CONNACK]. rewrite Hpf. reflexivity.
     + unfold parse_body. cbn [fh_type fh_flags]. cbn [N.eqb Pos.eqb PUBLISH CONNECT CONNACK]. rewrite Hpf. exact Hparse.
   - (* PUBACK / PUBREC / PUBCOMP *)
     assert (ver = v) by (destruct Hinv as (_ & ? & _); assumption). subst ver.
     destruct (rt_ack v ta pid code pr t fl bytes Hinv Epb Hlen) as (-> & -> & Hparse).
     destruct Hinv as (Hta & _).
-    eapply read_packet_packed; eauto; try (cbv; reflexivity).
+    eapply (read_packet_packed v ta 0 bytes _ h); [|reflexivity|exact Hlen| |exact Eh].
     + unfold PUBACK, PUBREC, PUBCOMP in Hta. lia.
     + left. destruct Hta as [ -> | [ -> | -> ] ]; (split; [reflexivity|exact Hparse]).
   - (* PUBREL *)
     destruct (rt_pubrel v pid code pr t fl bytes Hinv Epb Hlen) as (-> & -> & Hparse).
-    eapply read_packet_packed; eauto; try (cbv; reflexivity). left. split; [reflexivity|exact Hparse].
+    eapply (read_packet_packed v PUBREL 2 bytes _ h); [reflexivity|reflexivity|exact Hlen| |exact Eh].
+    left. split; [reflexivity|exact Hparse].
   - (* SUBACK *) assert (ver = v) by (destruct Hinv; assumption). subst ver.
     destruct (rt_suback v pid pl pr t fl bytes Hinv Epb Hlen) as (-> & -> & Hparse).
-    eapply read_packet_packed; eauto; try (cbv; reflexivity). left. split; [reflexivity|exact Hparse].
+    eapply (read_packet_packed v SUBACK 0 bytes _ h); [reflexivity|reflexivity|exact Hlen| |exact Eh].
+    left. split; [reflexivity|exact Hparse].
   - (* UNSUBACK *) assert (ver = v) by (destruct Hinv; assumption). subst ver.
     destruct (rt_unsuback v pid pl pr t fl bytes Hv Hinv Epb Hlen) as (-> & -> & Hparse).
-    eapply read_packet_packed; eauto; try (cbv; reflexivity). left. split; [reflexivity|exact Hparse].
+    eapply (read_packet_packed v UNSUBACK 0 bytes _ h); [reflexivity|reflexivity|exact Hlen| |exact Eh].
+    left. split; [reflexivity|exact Hparse].
   - (* PINGREQ *) cbn [pack_body] in Epb. apply ok3_inj in Epb. destruct Epb as (<- & <- & <-).
-    eapply read_packet_packed; eauto; try (cbv; reflexivity). right. split; reflexivity.
+    eapply (read_packet_packed v PINGREQ 0 [] _ h); [reflexivity|reflexivity|exact Hlen| |exact Eh].
+    right. split; reflexivity.
   - (* PINGRESP *) cbn [pack_body] in Epb. apply ok3_inj in Epb. destruct Epb as (<- & <- & <-).
-    eapply read_packet_packed; eauto; try (cbv; reflexivity). right. split; reflexivity.
+    eapply (read_packet_packed v PINGRESP 0 [] _ h); [reflexivity|reflexivity|exact Hlen| |exact Eh].
+    right. split; reflexivity.
   - (* DISCONNECT *) assert (ver = v) by (destruct Hinv; assumption). subst ver.
     destruct (rt_disconnect v code pr t fl bytes Hv Hinv Epb Hlen) as (-> & -> & Hparse).
-    eapply read_packet_packed; eauto; try (cbv; reflexivity). left. split; [reflexivity|exact Hparse].
+    eapply (read_packet_packed v DISCONNECT 0 bytes _ h); [reflexivity|reflexivity|exact Hlen| |exact Eh].
+    left. split; [reflexivity|exact Hparse].
   - (* AUTH *)
     destruct (rt_auth v code pr t fl bytes Hinv Epb Hlen) as (-> & -> & [(-> & -> & ->)|(Hne & Hparse)]).
-    + eapply read_packet_packed; eauto; try (cbv; reflexivity). right. split; reflexivity.
-    + eapply read_packet_packed; eauto; try (cbv; reflexivity). left. split; [|exact Hparse].
+    + eapply (read_packet_packed v AUTH 0 [] _ h); [reflexivity|reflexivity|exact Hlen| |exact Eh].
+      right. split; reflexivity.
+    + eapply (read_packet_packed v AUTH 0 bytes _ h); [reflexivity|reflexivity|exact Hlen| |exact Eh].
+      left. split; [|exact Hparse].
       unfold precheck. cbn [fh_type fh_flags fh_rl]. cbn [N.eqb Pos.eqb AUTH].
       destruct bytes; [congruence|]. rewrite len_cons. replace (1 + len bytes =? 0) with false by lia. reflexivity.
 Qed.
